@@ -374,6 +374,95 @@ func c14For(c *Ctx, pp string) {
 		}
 		return pollMemo[h]
 	}
+	// a helper that ends an iteration and answers "go on"/"stop" (alone or next to an error) polls for the loop when
+	// every return that answers "go on" lies on the false edge of a poll made after the body it may run, and nothing is
+	// evaluated in it before that poll
+	pollHelperOK := func(h *ssa.Function, bi int, contVal bool) bool {
+		if h == nil || h.Pkg != pk || len(h.Blocks) == 0 {
+			return false
+		}
+		var polls []*ssa.Call
+		var bodyCall *ssa.Call
+		allInstrs(h, func(in ssa.Instruction) {
+			if call, ok := in.(*ssa.Call); ok {
+				if isPollFn(call.Call.StaticCallee()) {
+					polls = append(polls, call)
+				} else if runsBodyOnce(call.Call.StaticCallee(), runStmts, 1) {
+					bodyCall = call
+				}
+			}
+		})
+		if len(polls) == 0 {
+			return false
+		}
+		isPollVal := func(v ssa.Value) bool {
+			for _, p := range polls {
+				if v == ssa.Value(p) && (bodyCall == nil || (!reachableFrom(p, bodyCall) && reachableFrom(bodyCall, p))) {
+					return true
+				}
+			}
+			return false
+		}
+		pollFalse := func(b *ssa.BasicBlock) bool {
+			for _, ec := range controlling(b) {
+				cond, pol := ec.Cond, ec.Pol
+				if u, ok := cond.(*ssa.UnOp); ok && u.Op == token.NOT {
+					cond, pol = u.X, !pol
+				}
+				if isPollVal(cond) && !pol {
+					return true
+				}
+			}
+			return false
+		}
+		direct := func(v ssa.Value, val bool) bool {
+			if u, ok := v.(*ssa.UnOp); ok && u.Op == token.NOT {
+				return isPollVal(u.X) && val
+			}
+			return isPollVal(v) && !val
+		}
+		if !helperAnswers(h, bi, contVal, pollFalse, direct) {
+			return false
+		}
+		okEv := true
+		allInstrs(h, func(in ssa.Instruction) {
+			if call, ok := in.(*ssa.Call); ok && call != bodyCall && evalFns[call.Call.StaticCallee()] && !pollFalse(call.Block()) {
+				okEv = false
+			}
+		})
+		return okEv
+	}
+	type pollSite struct {
+		call    *ssa.Call
+		ifBlk   *ssa.BasicBlock
+		exitIdx int
+	}
+	helperPolls := func(l *natLoop) []pollSite {
+		var out []pollSite
+		for _, b := range l.Header.Parent().Blocks {
+			if !l.Blocks[b] {
+				continue
+			}
+			for _, in := range b.Instrs {
+				call, ok := in.(*ssa.Call)
+				if !ok {
+					continue
+				}
+				h := call.Call.StaticCallee()
+				bi := boolResultIdx(h)
+				if bi < 0 || isPollFn(h) {
+					continue
+				}
+				ifBlk, contVal, exitIdx, ok := loopTestOf(l, call, bi)
+				if !ok || !pollHelperOK(h, bi, contVal) {
+					continue
+				}
+				r.Fn(relName(h))
+				out = append(out, pollSite{call, ifBlk, exitIdx})
+			}
+		}
+		return out
+	}
 	for _, name := range []string{"RunStmts", "RunForStmt", "RunForInStmt"} {
 		fn := pk.Func(name)
 		if fn == nil {
@@ -413,6 +502,22 @@ func c14For(c *Ctx, pp string) {
 					}
 				}
 			}
+			hsites := helperPolls(l)
+			viaHelper := ""
+			if poll == nil {
+				for _, hs := range hsites {
+					dom := true
+					for _, la := range l.Latch {
+						if !hs.ifBlk.Dominates(la) {
+							dom = false
+						}
+					}
+					if dom {
+						poll, pollBlk, exitIdx = hs.call, hs.ifBlk, hs.exitIdx
+						viaHelper = " (inside the helper: every `go on` answer lies on the false edge of the poll)"
+					}
+				}
+			}
 			pos := "-"
 			for _, in := range l.Header.Instrs {
 				if in.Pos().IsValid() {
@@ -433,7 +538,7 @@ func c14For(c *Ctx, pp string) {
 				r.Ob("POLL-IN-CYCLE", key, pos, false, "this loop has a cycle on which neither StmtRetrun() nor ProcExit() is polled with an exit on true: an iteration can repeat forever after the signal fired")
 				continue
 			}
-			r.Ob("POLL-IN-CYCLE", key, t.Pos(poll.Pos()), true, poll.Call.StaticCallee().Name()+" poll dominates every back edge and its true edge leaves the loop")
+			r.Ob("POLL-IN-CYCLE", key, t.Pos(poll.Pos()), true, poll.Call.StaticCallee().Name()+" poll dominates every back edge and its true edge leaves the loop"+viaHelper)
 			// (3b) the body is where the signal is observed (RunStmts polls after each statement and returns): between
 			// the body's return and the next evaluation in the same iteration (post statement, next element, …) the
 			// executor must consult the latch, or that evaluation runs after the signal was observed
@@ -446,6 +551,17 @@ func c14For(c *Ctx, pp string) {
 					b := call.Block()
 					iff, isIf := b.Instrs[len(b.Instrs)-1].(*ssa.If)
 					return isIf && iff.Cond == ssa.Value(call) && (!l.Blocks[b.Succs[0]] || leadsOut(b.Succs[0], l))
+				}
+				if len(hsites) > 0 {
+					direct := isPoll
+					isPoll = func(in ssa.Instruction) bool {
+						for _, hs := range hsites {
+							if in == hs.ifBlk.Instrs[len(hs.ifBlk.Instrs)-1] {
+								return true // the caller's test of the helper's answer
+							}
+						}
+						return direct(in)
+					}
 				}
 				nb := 0
 				for _, b := range fn.Blocks {
